@@ -1,5 +1,11 @@
 """C12/C13 mode E: the marching-cubes slab pipeline (McScan) and the dual-contouring window (DcWindow)."""
+import json
+import os
+
+import vlib
 from vlib import Infra
+
+SCANTRACE = "SPECIFICATION TSpec\nCONSTANTS\n  MaxZ = 24\n  MaxP = 17\nINVARIANTS TInv\nCHECK_DEADLOCK FALSE\n"
 
 MCSCAN = "SPECIFICATION Spec\nCONSTANTS\n  MaxZ = %d\n  MaxP = %d\nINVARIANTS RightSlabs NoRace EachOnce\nPROPERTIES Terminates\nCHECK_DEADLOCK FALSE\n"
 DCWIN = "SPECIFICATION Spec\nCONSTANTS\n  MaxZ = %d\nINVARIANTS NeverWithoutCubes AtMostOnce AllOnceAtEnd\nPROPERTIES Terminates\nCHECK_DEADLOCK FALSE\n"
@@ -21,3 +27,45 @@ def run(ctx):
         ctx.require_clean(e, "E-" + name)
         ctx.add_tlc_counts(e)
         ctx.stage("protocol-" + name, kind="E", states=e.distinct, generated=e.generated)
+    scan_trace(ctx)
+
+
+def scan_trace(ctx):
+    """V: hook traces of the real squareSpacer.Scan (MarchingCubes at GOMAXPROCS 1..16, 3..19 slabs) are behaviours of
+    McScan, with McScan's invariants evaluated on every state of every trace."""
+    quick = ctx.tier == "quick"
+    rpath = os.path.join(ctx.dir, "records-scan.ndjson")
+    spath = os.path.join(ctx.dir, "stats-scan.json")
+    ctx.drv(["c12-scan", "out=" + rpath, "stats=" + spath, "rounds=%d" % (2 if quick else 25), "seed=%d" % ctx.seed])
+    stats = json.load(open(spath))
+    if stats.get("records", 0) == 0 or stats.get("events", 0) < 10 * stats["records"]:
+        raise Infra("scan driver recorded %s" % stats)
+    j = ctx.tlc("V-scan", "pipeline/McScanTrace", SCANTRACE, data={"records.ndjson": rpath}, workers=16, timeout=1800)
+    recs = None
+    if j.invariant:
+        ctx.violation("scan-trace:%s" % j.invariant,
+                      "a recorded hook trace of squareSpacer.Scan drives McScan into a state violating %s" % j.invariant,
+                      {"spec": "pipeline/McScanTrace.tla", "tlc_output_tail": open(j.stdout_path).read()[-3000:]})
+    else:
+        ctx.require_clean(j, "V-scan")
+        # one state per consumed event + the initial and the final state of every record
+        if j.distinct != stats["events"] + 2 * stats["records"] and not j.tagged("REJECT"):
+            raise Infra("scan trace validation examined %d states for %d events in %d records" % (
+                j.distinct, stats["events"], stats["records"]))
+    ctx.add_tlc_counts(j)
+    for (_, rid, line, ev) in j.tagged("REJECT"):
+        if recs is None:
+            recs = {r["id"]: r for r in vlib.read_ndjson(rpath)}
+        rec = recs[rid]
+        ctx.violation("scan-trace:MarchingCubes:%s" % ev,
+                      "hook trace #%d (GOMAXPROCS=%d, lattice %s) is not a behaviour of McScan at event %d (%s)" % (
+                          rid, rec["procs"], rec["n"], line, ev),
+                      {"spec": "pipeline/McScanTrace.tla", "procs": rec["procs"], "n": rec["n"],
+                       "trace_prefix": rec["ev"][:line]})
+    for rec in vlib.read_ndjson(rpath):
+        if rec["panic"]:
+            ctx.violation("scan-panic:MarchingCubes", "MarchingCubes panicked: %s" % rec["panic"][:300], {"record": rec["id"]})
+    ctx.counts["traces_validated_against_impl"] += stats["records"]
+    ctx.counts["evaluations"] += stats["records"]
+    ctx.counts["distinct_nontrivial"] += stats.get("nonempty", 0)
+    ctx.stage("V-scan", kind="V", records=stats["records"], events=stats["events"], fewer_slabs_than_workers=stats.get("flat", 0))
